@@ -15,6 +15,9 @@ CLAIMED = {
     "C02": ("The schema predicate (column lengths = nnz, strict order, range, triangularity, both offset indexes = run-length indexes, nbins/nchroms/sum/"
             "bin-type/bin-size consistent) is proved on the raw store after ordered creation from every stream within the bounds, and the index builder is "
             "decided for every block size with its 1e6 block made symbolic.", "4/C02"),
+    "C04": ("Cooler.extent/offset, bins()/pixels()/matrix() fetch, GenomeSegmentation.fetch and bedslice are executed on bin tables with symbolic widths "
+            "(fixed-width path taken through the real get_binsize; variable path) and symbolic (chrom, start, end): selected bins == overlapping bins of that "
+            "chromosome; pixel and two-region matrix fetch == index queries on the extents.", "4/C04"),
     "C20": ("binnify is decided for symbolic chromosome lengths (width concrete per case), get_binsize/get_chromsizes for every valid bin table of each "
             "layout with symbolic widths: a reported size implies every bin has the fixed form.", "4/C20"),
     "C03": ("For every stored matrix with n<=3 bins / K<=2 pixels (thorough n<=4,K<=3), every window, both storage modes, dense and sparse output "
